@@ -25,6 +25,8 @@ func init() {
 			"registry insertions are paired with the subscription counter, TriggerCountInc with initialized.Store(true); the trigger id derives from the input hash and the headers hash; Source.Start has one call site, under a detached context, with tear-down on its error edge; " +
 			"sources call Done() after every Error()/Complete(). It does not decide that the counters return to zero for every history.",
 		Mutants: []Mutant{
+			{Name: "updater callbacks delivered to whatever trigger holds the id (reverts part of the F36 fix)", File: resolveGo, Rule: "C13-R13", Key: "Resolver.handleTriggerComplete/snapshotSubscriptions-of-own-trigger-only",
+				Old: "func (r *Resolver) handleTriggerComplete(updater *subscriptionUpdater) {\n\ttrig, ok := r.triggerOf(updater)\n", New: "func (r *Resolver) handleTriggerComplete(updater *subscriptionUpdater) {\n\ttrig, ok := r.getTrigger(updater.triggerID)\n"},
 			{Name: "a live subscription identifier is overwritten in the indexes (reverts the F34 fix)", File: resolveGo, Rule: "C13-R12", Key: "Resolver.addSubscription/registers-only-an-unused-id",
 				Old: "\tif _, exists := r.subscriptionsByID[add.id]; exists {\n\t\treturn fmt.Errorf(\"subscription %d of connection %d is already registered\", add.id.SubscriptionID, add.id.ConnectionID)\n\t}\n", New: ""},
 			{Name: "a failed flush marks the subscription removed before unsubscribing (seeded change C13-23)", File: resolveGo, Rule: "C13-R11", Key: "Resolver.executeSubscriptionUpdate/removed-flag-write",
@@ -69,6 +71,7 @@ func init() {
 
 func runC13(r *fw.Run) {
 	defer c13OwnTrigger(r)
+	defer c13DeliveryOwnTrigger(r)
 	defer c13RegistrationNeverOverwrites(r)
 	defer c13RemovedFlagOnlyByTheRemover(r)
 	defer c13InitializedUnderRegistryLock(r)
@@ -1473,4 +1476,94 @@ func c13RegistrationNeverOverwrites(r *fw.Run) {
 		in.Run(nil)
 	}
 	r.Expect("C13-R12", "calls of registerSubscriptionLocked", n, 2)
+}
+
+// c13DeliveryOwnTrigger (R13): the sibling of R8 for the delivering callbacks. subscriptionUpdater.Update,
+// UpdateSubscription, Complete and Error drop a call only when the trigger's context is already cancelled — but a trigger
+// is deleted from the registry first and cancelled after its subscribers were closed (which can block on a slow client
+// write). In that window a new subscriber may register a new trigger under the same id (the id is a hash of input and
+// headers), and the stale source's callback, looking the trigger up by id, delivers into it: a duplicate message, a foreign
+// `complete`, data after the complete. The Resolver methods those four callbacks call may use the subscribers of the
+// trigger they found (snapshotSubscriptions / filterSubscriptions / filterSubscription) only after comparing the found
+// trigger's updater with the caller's.
+func c13DeliveryOwnTrigger(r *fw.Run) {
+	p := r.Prog
+	r.Rule("C13-R13", "the Resolver methods through which subscriptionUpdater.Update / UpdateSubscription / Complete / Error deliver to subscribers use the subscribers of the trigger found under the id only after comparing that trigger's updater with the calling updater")
+	info := p.Pkg("resolve").TypesInfo
+	targets := map[*types.Func]bool{}
+	for _, name := range []string{"Update", "UpdateSubscription", "Complete", "Error"} {
+		fi := p.Func("resolve", "subscriptionUpdater."+name)
+		if fi == nil {
+			r.Error("C13-R13: subscriptionUpdater.%s not found", name)
+			continue
+		}
+		fw.WalkAll(fi.Decl.Body, func(nd ast.Node) bool {
+			if c, ok := nd.(*ast.CallExpr); ok {
+				if fn := fw.Callee(info, c); fn != nil {
+					if sig, _ := fn.Type().(*types.Signature); sig != nil && sig.Recv() != nil && fw.RecvName(sig.Recv().Type()) == "Resolver" {
+						targets[fn] = true
+					}
+				}
+			}
+			return true
+		})
+	}
+	uses := func(c *ast.CallExpr) string {
+		for _, m := range []string{"snapshotSubscriptions", "filterSubscriptions", "filterSubscription"} {
+			if fw.CallIs(info, c, "resolve", "trigger."+m) {
+				return m
+			}
+		}
+		return ""
+	}
+	n := 0
+	var names []*types.Func
+	for fn := range targets {
+		names = append(names, fn)
+	}
+	sort.Slice(names, func(i, j int) bool { return names[i].Name() < names[j].Name() })
+	for _, fn := range names {
+		fi := p.FuncOf(fn)
+		if fi == nil {
+			continue
+		}
+		sig := fn.Type().(*types.Signature)
+		params := map[types.Object]bool{}
+		for i := 0; i < sig.Params().Len(); i++ {
+			params[sig.Params().At(i)] = true
+		}
+		isOwn := func(e ast.Expr) bool {
+			o := fw.RootObj(info, e)
+			return o != nil && params[o] && fw.TypeIs(info.TypeOf(e), "resolve", "subscriptionUpdater")
+		}
+		isFound := func(e ast.Expr) bool {
+			return fw.IsFieldSel(info, ast.Unparen(e), "resolve", "trigger", "updater") && !params[fw.RootObj(info, e)]
+		}
+		in := fw.NewInterp(fi)
+		in.H = fw.Hooks{
+			Cond: func(e ast.Expr, branch bool, st *fw.State) {
+				a := fw.Atom(info, e, branch)
+				if a.Kind == "Eq" && ((isFound(a.X) && isOwn(a.Y)) || (isFound(a.Y) && isOwn(a.X))) {
+					st.Set("own-trigger")
+				}
+				// a helper that returns (trigger, ok) only for the caller's own trigger: ok true
+				if id, ok := ast.Unparen(e).(*ast.Ident); ok && branch && fw.VarFromCall(fi, info.Uses[id], id.Pos(), "resolve", "Resolver.triggerOf", 1) {
+					st.Set("own-trigger")
+				}
+			},
+			Node: func(nd ast.Node, st *fw.State) {
+				c, ok := nd.(*ast.CallExpr)
+				if !ok || !in.Final() {
+					return
+				}
+				if m := uses(c); m != "" {
+					n++
+					r.Check(st.Must("own-trigger"), "C13-R13", fi.Name()+"/"+m+"-of-own-trigger-only", p.Pos(c.Pos()), fi.Name()+" delivers only to the subscribers of the caller's own trigger",
+						"the trigger is looked up by id and its subscribers are used without comparing it with the calling updater: between the removal of a trigger from the registry and the cancellation of its context (which waits for slow client writes) a new trigger can be registered under the same id, and the stale source's Update / Complete / Error is delivered to the new trigger's subscribers — a duplicate message, a foreign complete, data after the complete")
+				}
+			},
+		}
+		in.Run(nil)
+	}
+	r.Expect("C13-R13", "uses of a found trigger's subscribers reachable from delivering callbacks", n, 4)
 }
